@@ -129,10 +129,12 @@ def run_entry(args):
         nq = 0
         # batch pre-pass: all panic/unwind obligations sharing an assumption prefix are first checked as one disjunction
         batch_ok = set()
+        batch_sat = {}
+        batch_skip = set()
         groups = {}
         for i, ob in enumerate(ex.obligations):
-            if ob.kind in ("panic",) and not (ob.cond is True or ob.guard is False):
-                groups.setdefault(ob.nassume, []).append(i)
+            if not (ob.cond is True or ob.guard is False):
+                groups.setdefault(min(ob.nassume, len(ex.assumes)), []).append(i)
         # opts["fresh_solver"]: assert the assumption prefix inside each obligation's own scope instead of once at the outer
         # level. z3's incremental core simplifies the formulas of one scope together; with a large path-condition-guarded
         # prefix asserted in an outer scope some easy queries (C35) take minutes instead of a second.
@@ -143,18 +145,55 @@ def run_entry(args):
             while nadded < na and nadded < len(ex.assumes):
                 s.add(ex.assumes[nadded])
                 nadded += 1
-            s.push()
-            s.add(z3.Or(*[z3.And(to_z3_bool(ex.obligations[i].guard), to_z3_bool(b_not(ex.obligations[i].cond))) for i in idxs]))
-            r = s.check()
-            nq += 1
-            s.pop()
-            if os.environ.get("VERIF_VERBOSE"):
-                print("   batch of %d panic obligations (nassume=%d): %s in %.1fs" % (len(idxs), na, r, time.time() - ts), flush=True)
-            if r == z3.unsat:
-                batch_ok.update(idxs)
+            remaining = list(idxs)
+            rounds_ = 0
+            while remaining and rounds_ < 6:
+                rounds_ += 1
+                s.push()
+                s.add(z3.Or(*[z3.And(to_z3_bool(ex.obligations[i].guard), to_z3_bool(b_not(ex.obligations[i].cond))) for i in remaining]))
+                r = s.check()
+                nq += 1
+                if os.environ.get("VERIF_VERBOSE"):
+                    print("   batch of %d obligations (nassume=%d): %s in %.1fs" % (len(remaining), na, r, time.time() - ts), flush=True)
+                if r == z3.unsat:
+                    s.pop()
+                    batch_ok.update(remaining)
+                    break
+                if r != z3.sat:
+                    s.pop()
+                    break
+                # the model violates at least one obligation of the batch: report those directly, re-batch the others
+                m = s.model()
+                hit = []
+                for i in remaining:
+                    ob = ex.obligations[i]
+                    v = m.eval(z3.And(to_z3_bool(ob.guard), to_z3_bool(b_not(ob.cond))), model_completion=True)
+                    if z3.is_true(v):
+                        hit.append(i)
+                if not hit:
+                    s.pop()
+                    break
+                vals = []
+                for (n_, term, kind) in ex.nondets:
+                    try:
+                        vals.append({"name": n_, "kind": kind, "value": model_value(m, term, kind)})
+                    except Exception as e_:
+                        vals.append({"name": n_, "kind": kind, "value": None, "err": str(e_)})
+                from .conc import schedule_of
+                sch = schedule_of(ex, m)
+                for i in hit:
+                    batch_sat[i] = (vals, sch)
+                s.pop()
+                names_hit = {(ex.obligations[i].kind, ex.obligations[i].name) for i in hit}
+                # other instances of an already violated assertion are not re-proved (one counterexample per assertion)
+                for i in remaining:
+                    if i not in batch_sat and (ex.obligations[i].kind, ex.obligations[i].name) in names_hit:
+                        batch_skip.add(i)
+                remaining = [i for i in remaining if i not in batch_sat and i not in batch_skip]
         # NB: the incremental solver only ever grows its assumption prefix; obligations are visited in creation order
         s2 = z3.Solver()
         nadded2 = 0
+        reach_by_name = {}
         sinc, ninc = None, 0
         for i, ob in enumerate(ex.obligations):
             while nadded2 < ob.nassume and nadded2 < len(ex.assumes) and not fresh:
@@ -165,10 +204,33 @@ def run_entry(args):
                 rec["result"] = "trivial"
                 res["obligations"].append(rec)
                 continue
+            if i in batch_sat:
+                rec["result"] = "sat"
+                rec["model"] = batch_sat[i][0]
+                if batch_sat[i][1] is not None:
+                    rec["schedule"] = batch_sat[i][1]
+                res["violations"].append(rec)
+                res["obligations"].append(rec)
+                continue
+            if i in batch_skip:
+                rec["result"] = "skipped"
+                rec["note"] = "another instance of this assertion already has a counterexample"
+                res["obligations"].append(rec)
+                continue
             if i in batch_ok:
                 rec["result"] = "unsat"
                 rec["batched"] = True
-                rec["reachable"] = True
+                if ob.kind == "assert":
+                    if ob.name not in reach_by_name:
+                        s2.push()
+                        s2.add(z3.Or(*[to_z3_bool(o2.guard) for o2 in ex.obligations if o2.kind == "assert" and o2.name == ob.name and o2.guard is not False]))
+                        rr = s2.check()
+                        nq += 1
+                        s2.pop()
+                        reach_by_name[ob.name] = (rr == z3.sat)
+                    rec["reachable"] = reach_by_name[ob.name]
+                else:
+                    rec["reachable"] = True
                 res["obligations"].append(rec)
                 continue
             if fresh and ob.kind != "assert":
